@@ -48,7 +48,7 @@ TECHNIQUE = ("runtime monitoring: bitwise differential vs single-query "
 	"in-kernel trace hook (per-thread histories) and poison differential "
 	"(MSan substitute); offline n_nearest checker")
 TIMEOUT = {"quick": 1200, "thorough": 7200}
-CHUNKS = {"quick": 16, "thorough": 32}
+CHUNKS = {"quick": 12, "thorough": 32}
 
 LENS = [1, 1, 2, 3, 5, 8, 13, 20, 25]
 POISONS = [None, (0.0, 0), (float("nan"), 77), (1e300, -128), (-7.25, 1)]
@@ -359,15 +359,18 @@ def gen_params(seed, k):
 
 
 def plan(tier, seed):
-	n = 32 if tier == "quick" else 640
+	n = 24 if tier == "quick" else 640
 	per = 2 if tier == "quick" else 20
 	units = []
 	for i, k0 in enumerate(range(0, n, per)):
 		env = {"NUMBA_NUM_THREADS": "16"}
 		if i % 4 == 3:
 			env["NUMBA_THREADING_LAYER"] = "workqueue"
+		# one hashing mode per worker process: hashing changes the dtype of an
+		# argument of the (uncached) kernel, i.e. costs a second compilation
 		units.append({"cls": "configs", "k0": k0, "k1": min(n, k0 + per),
-			"seed": seed, "weight": per, "env": env, "tier": tier})
+			"seed": seed, "weight": per, "env": env, "tier": tier,
+			"hashing": i % 3 == 1})
 	return units
 
 
@@ -378,6 +381,10 @@ def run_unit(unit, rec):
 		if unit["tier"] == "quick":
 			params["n_q"] = min(params["n_q"], 16)
 			params["n_perm"], params["n_sub"] = 2, 2
+		if unit.get("hashing"):
+			params["n_target_bins"] = params["n_target_bins"] or 100
+		else:
+			params["n_target_bins"] = None
 		layer = unit.get("env", {}).get("NUMBA_THREADING_LAYER", "omp")
 		run_case("diff-" + layer, params, rec)
 	try:
@@ -387,4 +394,6 @@ def run_unit(unit, rec):
 	p = gen_params(unit["seed"], unit["k0"] + 100000)
 	p["n_nearest"] = 2
 	p["n_q"] = 10
+	if not unit.get("hashing"):
+		return
 	case_annotate("annotate-seqlets", p, rec)
